@@ -12,7 +12,7 @@ def run(ctx, factor):
                 "<symbol+off> annotations, # comments, blank lines, section / file-format headers, indentation, width and "
                 "content of the raw-byte column, continuation lines, \\r\\n line ends) at random positions: the real streams must be equal, "
                 "and so must the results of a random rule in list mode; model stream compared as well")
-    for _ in range(ctx.budget(400, 16000) * factor):
+    for _ in range(ctx.budget(700, 16000) * factor):
         l1 = gen_lines.listing(g, g.int(1, 10))
         l2 = gen_lines.presentation_edit(g, l1)
         r1 = ctx.driver.call({"op": "linespec", "lines": l1})["ok"]
